@@ -177,6 +177,13 @@ fn gen_felt_vec(rng: &mut Rng) -> Vec<u64> {
         7 => v = (0..rng.usize(12)).map(|_| rng.u32() as u64).collect(),
         _ => {}
     }
+    // representation alias: the same field element stored as the raw limb value + p
+    if !v.is_empty() && rng.chance(1, 6) {
+        let i = rng.usize(v.len());
+        if v[i] < 0xFFFF_FFFF - 1 {
+            v[i] += P;
+        }
+    }
     v
 }
 
@@ -267,6 +274,31 @@ fn c25_digest_case(rng: &mut Rng, t: &mut Tally) {
             t.violation("C25:digest:length", format!("BytesDigest::try_from accepts a {}-byte slice", l), json!({"kind": "c25_digest_len", "len": l}));
         }
     }
+    // the zk_merkle predicate and the 4-felt helper agree with the same rule
+    match catch(|| zm::is_canonical_hash(&bytes)) {
+        Err(p) => t.violation("C25:is_canonical_hash:panic", format!("is_canonical_hash panicked: {}", p), case()),
+        Ok(got) if got != want => t.violation("C25:is_canonical_hash:wrong", format!("is_canonical_hash returned {} for limbs {:?} (all < p: {})", got, limbs, want), case()),
+        _ => {}
+    }
+    if want {
+        let fs: Vec<F> = limbs.iter().map(|l| F::from_canonical_u64(*l)).collect();
+        match catch(|| cu::try_4_felts_to_bytes(&fs).ok().map(|d| *d)) {
+            Err(p) => t.violation("C25:try_4_felts_to_bytes:panic", format!("try_4_felts_to_bytes panicked: {}", p), case()),
+            Ok(got) if got != Some(bytes) => t.violation("C25:try_4_felts_to_bytes:wrong", format!("try_4_felts_to_bytes({:?}) is not the little-endian limb image", limbs), case()),
+            _ => {}
+        }
+        if zm::felts_to_hash(&zm::hash_to_felts(&bytes)) != bytes || zm::hash_to_felts(&bytes).map(|f| f.to_canonical_u64()) != limbs {
+            t.violation("C25:hash_to_felts:roundtrip", "hash_to_felts / felts_to_hash do not round-trip a canonical hash".to_string(), case());
+        }
+        for l in [0usize, 1, 3, 5, 8] {
+            let v: Vec<F> = (0..l).map(|i| fs[i % 4]).collect();
+            match catch(|| cu::try_4_felts_to_bytes(&v).is_ok()) {
+                Err(p) => t.violation("C25:try_4_felts_to_bytes:panic", format!("try_4_felts_to_bytes panicked on {} felts: {}", l, p), case()),
+                Ok(true) => t.violation("C25:try_4_felts_to_bytes:length", format!("try_4_felts_to_bytes accepts {} felts", l), case()),
+                _ => {}
+            }
+        }
+    }
     if want {
         let d = BytesDigest::try_from(bytes).unwrap();
         let felts = cu::bytes_to_digest(d);
@@ -286,6 +318,21 @@ fn c25_digest_case(rng: &mut Rng, t: &mut Tally) {
             t.violation("C25:secret:roundtrip", "Secret does not round-trip through felts/digest".to_string(), case());
         }
     }
+}
+
+/// Field element with value `v` (< p) in a generated *representation*: plonky2's Goldilocks keeps
+/// unreduced limbs, so the value v < 2^32 - 1 can also be stored as the raw limb p + v (what
+/// `from_noncanonical_u64`, a field addition or a release-mode proof deserialisation produce).
+/// Decoders must go by the value.
+pub fn felt_repr(rng: &mut Rng, v: u64) -> F {
+    if v < 0xFFFF_FFFF - 1 {
+        match rng.below(4) {
+            0 => return F::from_noncanonical_u64(P + v),
+            1 => return F::NEG_ONE + F::from_canonical_u64(v + 1),
+            _ => {}
+        }
+    }
+    F::from_canonical_u64(v)
 }
 
 fn c25_int_case(rng: &mut Rng, t: &mut Tally) {
@@ -309,7 +356,7 @@ fn c25_int_case(rng: &mut Rng, t: &mut Tally) {
     t.eval();
     let a = [l(rng), l(rng)];
     let want = if a.iter().all(|x| *x <= 0xFFFF_FFFF) { Some((a[0] << 32) | a[1]) } else { None };
-    let fa = [F::from_canonical_u64(a[0]), F::from_canonical_u64(a[1])];
+    let fa = [felt_repr(rng, a[0]), felt_repr(rng, a[1])];
     for (name, got) in [("serialization::try_felts_to_u64", catch(|| ser::try_felts_to_u64(fa).ok())), ("utils::felts_to_u64", catch(|| cu::felts_to_u64(fa).ok()))] {
         match got {
             Err(p) => t.violation(format!("C25:{}:panic", name), p, json!({"kind": "c25_u64", "limbs": a})),
@@ -329,7 +376,7 @@ fn c25_int_case(rng: &mut Rng, t: &mut Tally) {
     t.eval();
     let b = [l(rng), l(rng), l(rng), l(rng)];
     let want = if b.iter().all(|x| *x <= 0xFFFF_FFFF) { Some(((b[0] as u128) << 96) | ((b[1] as u128) << 64) | ((b[2] as u128) << 32) | b[3] as u128) } else { None };
-    let fb = [F::from_canonical_u64(b[0]), F::from_canonical_u64(b[1]), F::from_canonical_u64(b[2]), F::from_canonical_u64(b[3])];
+    let fb = [felt_repr(rng, b[0]), felt_repr(rng, b[1]), felt_repr(rng, b[2]), felt_repr(rng, b[3])];
     for (name, got) in [("serialization::try_felts_to_u128", catch(|| ser::try_felts_to_u128(fb).ok())), ("utils::felts_to_u128", catch(|| cu::felts_to_u128(fb).ok()))] {
         match got {
             Err(p) => t.violation(format!("C25:{}:panic", name), p, json!({"kind": "c25_u128", "limbs": b})),
@@ -363,7 +410,8 @@ fn c25_int_case(rng: &mut Rng, t: &mut Tally) {
     }
     if let Some(qv) = want {
         if n % Q == 0 {
-            match catch(|| ser::try_felt_to_quantized_u128(F::from_canonical_u64(qv)).ok()) {
+            let fqv = felt_repr(rng, qv);
+            match catch(|| ser::try_felt_to_quantized_u128(fqv).ok()) {
                 Ok(Some(b)) if b == n => {}
                 other => t.violation("C25:dequantize", format!("try_felt_to_quantized_u128 does not invert quantisation at {}: {:?}", n, other), json!({"kind": "c25_quant", "n": n.to_string()})),
             }
@@ -371,7 +419,8 @@ fn c25_int_case(rng: &mut Rng, t: &mut Tally) {
     }
     let fq = l(rng);
     let wantq = if fq <= 0xFFFF_FFFF { Some(fq as u128 * Q) } else { None };
-    match catch(|| ser::try_felt_to_quantized_u128(F::from_canonical_u64(fq)).ok()) {
+    let ffq = felt_repr(rng, fq);
+    match catch(|| ser::try_felt_to_quantized_u128(ffq).ok()) {
         Ok(g) if g == wantq => {}
         other => t.violation("C25:dequantize", format!("try_felt_to_quantized_u128({}) = {:?}, expected {:?}", fq, other, wantq), json!({"kind": "c25_dequant", "felt": fq})),
     }
@@ -905,6 +954,24 @@ fn c27_native_case(p: &MProof, label: &str, t: &mut Tally) {
 
 fn c27_from_unsorted_case(rng: &mut Rng, t: &mut Tally, c: usize) {
     t.eval();
+    // insert_at_position: total over every position byte, exact for 0..3
+    {
+        let cur = rand_hash(rng, true);
+        let sib = [rand_hash(rng, true), rand_hash(rng, true), rand_hash(rng, true)];
+        let pos = if rng.chance(1, 2) { rng.below(4) as u8 } else { rng.below(256) as u8 };
+        let want: Option<[[u8; 32]; 4]> = match pos {
+            0 => Some([cur, sib[0], sib[1], sib[2]]),
+            1 => Some([sib[0], cur, sib[1], sib[2]]),
+            2 => Some([sib[0], sib[1], cur, sib[2]]),
+            3 => Some([sib[0], sib[1], sib[2], cur]),
+            _ => None,
+        };
+        match catch(|| zm::insert_at_position(cur, &sib, pos).ok()) {
+            Err(p) => t.violation("C27:insert_at_position:panic", format!("insert_at_position panicked at position {}: {}", pos, p), json!({"kind": "c27_insert", "position": pos})),
+            Ok(got) if got != want => t.violation("C27:insert_at_position:wrong", format!("insert_at_position at position {} returned {}", pos, if got.is_some() { "a wrong tuple / Ok for an out-of-range position" } else { "Err for an in-range position" }), json!({"kind": "c27_insert", "position": pos})),
+            _ => {}
+        }
+    }
     let depth = match c % 20 {
         18 => 17,
         19 => 18 + rng.usize(3),
